@@ -42,7 +42,11 @@ class CdcHarness(Harness):
         self.cov = {}
 
     def payload(self, seq, k, nbits):
-        # field k of item seq: distinct per field so crossed fields are visible
+        # field k of item seq: distinct per field so crossed fields are visible.  One-bit fields (cmd.we) are held at 1: the streams are
+        # exercised independently here, and a read command without its read data coming back is not a behaviour of the core (the port
+        # bounds the reads in flight, so reads that never complete would - rightly - stop the command stream); reads are covered end to
+        # end by ReadFlowHarness and GetPortHarness
+        if nbits == 1: return 1
         v = (seq * (k * 2 + 1) + k * 5) & 0xffff
         return v & ((1 << nbits) - 1)
 
@@ -143,11 +147,107 @@ def run(tier, seed, only=None):
     for name, kw, ms in getport_configs(tier):
         if only and only not in name: continue
         jobs.append((runner.mc_run, (PROP, "checks.c08", "build_getport", kw), dict(name=name, tier=tier, seed=seed, max_states=ms, post="final_check")))
+    rf = [("readflow-cmd4-rdata4", dict(cmd_depth=4, rdata_depth=4), 2_000_000), ("readflow-cmd4-rdata8-shallow", dict(cmd_depth=4, rdata_depth=8), 400_000)] if tier == "quick" else \
+         [("readflow-cmd4-rdata4", dict(cmd_depth=4, rdata_depth=4), 4_000_000), ("readflow-cmd4-rdata8", dict(cmd_depth=4, rdata_depth=8), 8_000_000),
+          ("readflow-cmd4-rdata16-defaults", dict(cmd_depth=4, rdata_depth=16), 8_000_000), ("readflow-cmd8-rdata4", dict(cmd_depth=8, rdata_depth=4), 4_000_000)]
+    for name, kw, ms in rf:
+        if only and only not in name: continue
+        jobs.append((runner.mc_run, (PROP, "checks.c08", "build_readflow", kw), dict(name=name, tier=tier, seed=seed, max_states=ms)))
     for name, kw, ms, md, live in configs(tier):
         if only and only not in name: continue
         jobs.append((runner.mc_run, (PROP, "checks.c08", "build", kw), dict(name=name, tier=tier, seed=seed, max_states=ms, max_depth=md, liveness=LIVE if live else ())))
     res = runner.run_jobs(jobs)
     return runner.finish(PROP, tier, seed, "model_checking", res, t0, ASSUME, RULE, technique="explicit-state BFS over all clock interleavings of the elaborated two-domain netlist with per-stream scoreboards")
+
+
+# ================================================================================================ read path under the core's real behaviour
+
+class ReadFlowHarness(Harness):
+    """LiteDRAMNativePortCDC as get_port(clock_domain=...) creates it (explicit FIFO depths), read path closed the way the real core behaves:
+    the crossbar returns read data as a one-cycle rdata.valid pulse a fixed number of sys cycles after it took the command and IGNORES
+    rdata.ready (core/crossbar.py never reads it) - so a word that arrives while the read-data FIFO is not writable is lost.  User side:
+    unbounded read commands, free back-pressure on the read data; every clock interleaving."""
+    multiclock = True
+    LAT = 2
+    MS = 64
+
+    def __init__(self, cmd_depth=4, rdata_depth=8):
+        from litedram.common import LiteDRAMNativePort
+        from litedram.frontend.adapter import LiteDRAMNativePortCDC
+        pf = LiteDRAMNativePort("read", 6, 8, clock_domain="user"); pt = LiteDRAMNativePort("read", 6, 8)
+        dut = LiteDRAMNativePortCDC(pf, pt, cmd_depth=cmd_depth, rdata_depth=rdata_depth)
+        self.rdata_depth = rdata_depth
+        # sequence numbers modulo more than everything that can be in flight (command FIFO + core pipeline + read-data FIFO)
+        self.MS = 1 << (cmd_depth + rdata_depth + self.LAT + 2).bit_length()
+        reads = [pf.cmd.ready, pf.rdata.valid, pf.rdata.data, pt.cmd.valid, pt.cmd.addr, pt.cmd.we, pt.rdata.ready]
+        self.c = c = fhdl.compile_harness(dut, reads, clocks={"sys": 10, "user": 10}, ticksets=[t for t in TICKS])
+        ii = c.ii; R = c.rd
+        self.i_valid = ii[pf.cmd.valid]; self.i_addr = ii[pf.cmd.addr]; self.i_we = ii.get(pf.cmd.we); self.i_rready = ii[pf.rdata.ready]
+        self.i_sready = ii[pt.cmd.ready]; self.i_svalid = ii[pt.rdata.valid]; self.i_sdata = ii[pt.rdata.data]
+        self.r_uready = R(pf.cmd.ready); self.r_uvalid = R(pf.rdata.valid); self.r_udata = R(pf.rdata.data)
+        self.r_svalid = R(pt.cmd.valid); self.r_saddr = R(pt.cmd.addr); self.r_srready = R(pt.rdata.ready)
+        self.base = list(c.base_inputs); self.base[self.i_sready] = 1
+        self.cov = {}
+
+    @staticmethod
+    def data_of(a): return (a * 7 + 3) & 0xff
+
+    # env: (send_seq, hold, next address expected on the sys side, pipe: tuple of (remaining, addr), next address expected by the user, words in the read-data FIFO)
+    def env0(self): return (0, 0, 0, (), 0, 0)
+
+    def menu(self, S, E):
+        seq, hold, sexp, pipe, uexp, occ = E
+        out = []
+        for tick in TICKS:
+            pv = (1,) if hold else ((1, 0) if "user" in tick else (0,))
+            cr = (1, 0) if "user" in tick else (0,)
+            out += [(tick, v, r) for v in pv for r in cr]
+        return out
+
+    def describe(self, ch): return "tick %s | read cmd valid=%d | user rdata.ready=%d" % ("+".join(ch[0]), ch[1], ch[2])
+
+    def drive(self, S, E, ch):
+        seq, hold, sexp, pipe, uexp, occ = E
+        tick, v, r = ch
+        I = list(self.base)
+        if v:
+            I[self.i_valid] = 1; I[self.i_addr] = seq
+        I[self.i_rready] = r
+        if "sys" in tick and pipe and pipe[0][0] == 0:
+            I[self.i_svalid] = 1; I[self.i_sdata] = self.data_of(pipe[0][1])
+        return tuple(I), tick
+
+    def observe(self, S, E, ch, I, O, S2):
+        seq, hold, sexp, pipe, uexp, occ = E
+        tick, v, r = ch
+        if v:
+            if "user" in tick and self.r_uready(S, I, O): seq = (seq + 1) % self.MS; hold = 0
+            else: hold = 1
+        if "user" in tick and r and self.r_uvalid(S, I, O):
+            got = self.r_udata(S, I, O)
+            if got != self.data_of(uexp):
+                self.report("cdc.read_stream_mismatch", "user port received %02x, expected the word of read #%d (%02x)" % (got, uexp, self.data_of(uexp)), stream="rdata")
+            uexp = (uexp + 1) % self.MS; occ -= 1
+            self.cov["words"] = self.cov.get("words", 0) + 1
+        if "sys" in tick:
+            if pipe and pipe[0][0] == 0:
+                if not self.r_srready(S, I, O):
+                    raise Violation("cdc.read_word_dropped", "the core returned the word of read #%d while the read-data FIFO was not writable: the word is lost (%d words waiting for the user, "
+                                    "configured rdata_depth %d); the port does not bound the reads in flight to what the FIFO can hold" % (pipe[0][1], occ, self.rdata_depth),
+                                    fifo_full_as_configured=bool(occ >= self.rdata_depth))
+                occ += 1; pipe = pipe[1:]
+            pipe = tuple((max(0, d - 1), a) for d, a in pipe)
+            if self.r_svalid(S, I, O):
+                a = self.r_saddr(S, I, O)
+                if a != sexp: self.report("cdc.stream_mismatch", "command stream: delivered address %d, expected %d" % (a, sexp), stream="cmd")
+                sexp = (sexp + 1) % self.MS
+                pipe = pipe + ((self.LAT, a),)
+        return (seq, hold, sexp, pipe, uexp, occ), 0
+
+    def coverage(self): return dict(self.cov)
+
+
+def build_readflow(**kw): return ReadFlowHarness(**kw)
 
 
 # ================================================================================================ get_port(clock_domain=..., data_width=...)
